@@ -423,6 +423,8 @@ def fixed_rows(fixed_source, encoding, field_name_and_lengths, line_delimiter="a
             if len(row) > 0:
                 yield row
                 location.advance_line()
+    except UnicodeDecodeError as error:
+        raise errors.DataFormatError("cannot read fixed data: %s" % error, location)
     finally:
         if is_opened:
             fixed_file.close()
